@@ -31,7 +31,7 @@ SELFTEST_TASK = ('hb',)
 
 
 def tasks(tier, seed):
-    out = [('b1',), ('hb',), ('big',), ('buffers',)]
+    out = [('b1',), ('hb',), ('big',), ('buffers',), ('frames-as-bodies',)]
     out += [('lengths', lo, lo + 600) for lo in range(0, 4800, 600)]
     out += [('lengths-far', 0, 0)]
     out += [('b2', hi) for hi in range(0, 256, 16)]
@@ -224,7 +224,28 @@ def big_bodies():
 def run(task, ctx):
     kind = task[0]
     chans = A.CHANNEL
-    if kind == 'buffers':
+    if kind == 'frames-as-bodies':
+        # a relay publishes what it read from another connection: the body
+        # is a complete frame (any kind, this channel or another, nested)
+        inner = [b'', b'x', b'hello world', b'\xce' * 9, bytes(300)]
+        for ch in (0, 1, 2, 255, 256, 65535):
+            made = [refcodec.enc_body_frame(i, ch)[0] for i in inner]
+            made += [refcodec.enc_body_frame(made[2], ch)[0],
+                     refcodec.enc_heartbeat_frame(ch)[0], refcodec.HEARTBEAT,
+                     refcodec.enc_protocol_header(0, 9, 1),
+                     refcodec.enc_header_frame(3, {'app_id': 'a'}, ch)[0],
+                     b'\x01' + ch.to_bytes(2, 'big') +
+                     b'\x00\x00\x00\x04\x00\x5a\x00\x0a\xce']
+            for body in made:
+                for variant in (body, body[:-1], body + b'\xce', body * 2):
+                    if not variant:
+                        continue
+                    for on in (ch, 1, 7):
+                        ctx.case((variant, on, 'frame-as-body'), True,
+                                 sample=lambda: {'body': variant[:24].hex(),
+                                                 'channel': on})
+                        check_body(ctx, variant, on)
+    elif kind == 'buffers':
         check_buffers(ctx)
     elif kind == 'b1':
         for v in range(256):
